@@ -21,11 +21,12 @@ pub mod c19;
 
 use crate::engine::Cfg;
 
-pub const SCENARIOS: &[&str] = &["c01", "c02a", "c02b", "c03", "c04a", "c04b", "c04c", "c04d", "c05", "c06mpsc", "c06spsc", "c06mpmc", "c08", "c08a", "c08m", "c09", "c10s", "c10f", "c11c", "c11b", "c11w", "c12", "c13", "c13d", "c13u", "c14s", "c14sel", "c15", "c16q", "c16sel", "c17s", "c17d", "c18t", "c18c", "c19v1", "c19plain", "c19wake"];
+pub const SCENARIOS: &[&str] = &["c01", "c01g", "c02a", "c02b", "c03", "c04a", "c04b", "c04c", "c04d", "c05", "c06mpsc", "c06spsc", "c06mpmc", "c08", "c08a", "c08m", "c09", "c09s", "c10s", "c10f", "c11c", "c11b", "c11v", "c11w", "c12", "c13", "c13d", "c13u", "c14s", "c14sel", "c15", "c16q", "c16sel", "c17s", "c17d", "c18t", "c18c", "c19v1", "c19plain", "c19wake"];
 
 pub fn run(name: &str, seed: u64, ov: impl FnMut(&mut Cfg)) -> ! {
     match name {
         "c01" => c01::run(seed, ov),
+        "c01g" => c01::run_handoff(seed, ov),
         "c02a" => c02::run_a(seed, ov),
         "c02b" => c02::run_b(seed, ov),
         "c03" => c03::run(seed, ov),
@@ -41,10 +42,12 @@ pub fn run(name: &str, seed: u64, ov: impl FnMut(&mut Cfg)) -> ! {
         "c08a" => c08::run_aimed(seed, ov),
         "c08m" => c08::run_many(seed, ov),
         "c09" => c09::run(seed, ov),
+        "c09s" => c09::run_spsc_aimed(seed, ov),
         "c10s" => c10::run_sem(seed, ov),
         "c10f" => c10::run_flag(seed, ov),
         "c11c" => c11::run_condvar(seed, ov),
         "c11b" => c11::run_barrier(seed, ov),
+        "c11v" => c11::run_barrier_victims(seed, ov),
         "c11w" => c11::run_waitgroup(seed, ov),
         "c12" => c12::run(seed, ov),
         "c13" => c13::run(seed, ov),
